@@ -182,9 +182,12 @@ func TestVerifRec13Pure(t *testing.T) {
 		if cidlen > 0 && rng.intn(4) != 0 {
 			cid = rng.bytes(cidlen)
 		}
-		n := []int{0, 1, 15, 16, 17, 40, 100, 16639, 16640, 16641}[rng.intn(10)]
+		n := []int{0, 1, 15, 16, 17, 40, 100}[rng.intn(7)]
 		if i%3 == 0 {
 			n = 14 + rng.intn(40)
+		}
+		if i < 3 { // the upper bound (long literals are slow to parse in Coq: three cases only)
+			n = 16639 + i
 		}
 		rec := r13MkRec(rng, cid, rng.intn(4) != 0, rng.intn(4) != 0, rng.intn(4), n)
 		switch rng.intn(6) {
